@@ -84,8 +84,20 @@ EQUIV_PREFIX = {
 }
 
 
-def equiv_relevant(name, prop):
-    return any(name.startswith(p) for p in EQUIV_PREFIX.get(prop, []))
+def equiv_relevant(name, prop, all_names=()):
+    """does `prop` rest on the generated-equals-model theorem `name`?  By prefix table, or because the
+    theorem covers a source function that the fingerprint rules attach to the property."""
+    if any(name.startswith(p) for p in EQUIV_PREFIX.get(prop, [])):
+        return True
+    try:
+        golden = json.load(open(os.path.join(VERIF, 'fingerprints.json')))
+    except Exception:
+        golden = {}
+    names = set(all_names) | {name}
+    for key in golden:
+        if prop in fingerprint.props_of(key) and name in (fp_cover(key, names) or []):
+            return True
+    return False
 
 
 def run_translator(log):
@@ -117,9 +129,9 @@ def run_translator(log):
     return out
 
 
-def write_audit(prop, thms, equiv_names=()):
+def write_audit(prop, thms, equiv_names=(), with_equiv=True):
     path = os.path.join(LEAN, 'Sm9', 'Audit', prop + '.lean')
-    text = f'import Sm9.Props.{prop}\nimport Sm9.Gen.Equiv\n-- GENERATED by ./check: axiom audit of every theorem of Props/{prop}.lean and of the generated-equals-model theorems it rests on\n' + \
+    text = f'import Sm9.Props.{prop}\n' + ('import Sm9.Gen.Equiv\n' if with_equiv else '') + f'-- GENERATED by ./check: axiom audit of every theorem of Props/{prop}.lean and of the generated-equals-model theorems it rests on\n' + \
         ''.join(f'#print axioms {n}\n' for n, _ in thms) + ''.join(f'#print axioms Sm9.GenEquiv.{n}\n' for n in equiv_names)
     if not os.path.exists(path) or open(path).read() != text:
         os.makedirs(os.path.dirname(path), exist_ok=True)
@@ -154,7 +166,8 @@ def lean_phase(prop, tier, log):
     # translator: regenerate Sm9/Gen/Rust.lean + Equiv.lean from the current source
     res['translator'] = run_translator(log)
     path, thms = prop_theorems(prop)
-    equiv_names = [n for n in res['translator'].get('theorems', []) if equiv_relevant(n, prop)]
+    _all = res['translator'].get('theorems', [])
+    equiv_names = [n for n in _all if equiv_relevant(n, prop, _all)]
     write_audit(prop, thms, equiv_names)
     t0 = time.time()
     rc, out = sh(['lake', 'build', 'sm9drv'], cwd=LEAN, timeout=3600)
@@ -183,6 +196,16 @@ def lean_phase(prop, tier, log):
             # the generated definitions themselves do not elaborate: every equivalence is unproved
             for n in res['translator'].get('theorems', []):
                 equiv_failed[n] = 'generated definitions do not build: ' + generic
+        elif equiv_failed:
+            # leave the failing theorems out and rebuild, so that the others are still checked and audited
+            sh([sys.executable, os.path.join(VERIF, 'tools', 'gen_equiv.py'), os.path.join(LEAN, 'Sm9', 'Gen'), ','.join(sorted(equiv_failed))], timeout=120)
+            rce2, oute2 = sh(['lake', 'build', 'Sm9.Gen.Equiv'], cwd=LEAN, timeout=3600)
+            if rce2 == 0:
+                rce = 0
+                write_audit(prop, thms, [n for n in equiv_names if n not in equiv_failed])
+            else:
+                for n in res['translator'].get('theorems', []):
+                    equiv_failed.setdefault(n, 'Equiv.lean does not build even without the failing theorems')
     rc, out = sh(['lake', 'build', f'Sm9.Props.{prop}'], cwd=LEAN, timeout=7200)
     log.append(('lake build', f'{time.time()-t0:.1f}s rc={rc} equiv_rc={rce}'))
     failed_lines = []
@@ -196,7 +219,7 @@ def lean_phase(prop, tier, log):
     axioms = {}
     if rc == 0 and rce != 0:
         # audit the property theorems alone when the generated equivalences do not build
-        write_audit(prop, thms, ())
+        write_audit(prop, thms, (), with_equiv=False)
     if rc == 0:
         rc2, out2 = sh(['lake', 'env', 'lean', os.path.join('Sm9', 'Audit', prop + '.lean')], cwd=LEAN, timeout=1800)
         for m in re.finditer(r"'([^']+)' depends on axioms: \[([^\]]*)\]", out2):
@@ -301,6 +324,19 @@ def fp_cover(key, all_names):
             names = ['G2Prepared_from']
         elif ctx == '' and fn in ('pairing', 'fast_pairing', 'bit'):
             names = [f'Pairings_{fn}']
+    elif rel == 'lib.rs':
+        m = re.fullmatch(r'impl (G[12])', ctx)
+        if m and fn in ('from_compressed', 'to_compressed', 'to_uncompressed', 'from_uncompressed', 'to_slice', 'from_slice'):
+            names = [f'Lib{m.group(1)}_{fn}']
+        m = re.fullmatch(r'impl Group for (G[12])', ctx)
+        if m and fn == 'normalize':
+            names = [f'Lib{m.group(1)}_normalize']
+        if ctx == 'impl G2Prepared' and fn == 'pairing':
+            names = ['LibG2Prepared_pairing']
+        if ctx == 'impl From < G2 > for G2Prepared' and fn == 'from':
+            names = ['LibG2Prepared_from']
+        if ctx == '' and fn in ('pairing', 'fast_pairing'):
+            names = [f'Lib_{fn}']
     if not names or any(n not in all_names for n in names):
         return None
     return names
